@@ -3,6 +3,8 @@
   by fix_9 (Model/Construct/EvpnGuards.lean): whatever they return walks.
 -/
 import Yabgp.Lemmas.WalkerEvf
+import Yabgp.Lemmas.WalkerFlow
+import Yabgp.Lemmas.EvfRt
 
 namespace Yabgp
 open Walker Evpn
@@ -79,6 +81,78 @@ theorem C08b_evpn_unreach (cfg : Cfg) (rs : List Route) (w : Bytes)
         simpa [attrValueOk, Mp.unreachValue, Evf.afiL2vpn, Evf.safiEvpn, be8] using this
   · simp at h
 
+/-! ### IPv4 flow specification (Model/Mp/Flowspec.lean, as repaired by fix_14) -/
+
+/-- `IPv4FlowSpec.construct(value)`: a sequence of flow specifications, each with a 1-octet length below 240 and
+    the 2-octet form 0xfnnn from there on, whose components are prefixes of ceil(len/8) octets and operator lists
+    of `operator, value of 1 << len octets` items ending - and only ending - with the end-of-list bit -/
+theorem C08b_flowspec_rules (rules : List Flowspec.Rule) (b : Bytes) (h : Flowspec.constructRulesR rules = some b) :
+    all (flowItem false) b = true := by
+  unfold Flowspec.constructRulesR at h
+  split at h
+  · rename_i hg
+    exact (seq_constructRules rules hg b h).all
+  · simp at h
+
+/-- MP_REACH_NLRI for (1, 133) -/
+theorem C08b_flowspec_reach (cfg : Cfg) (nh : Option Evpn.Ip) (rules : List Flowspec.Rule) (w : Bytes)
+    (h : Evf.constructReachR { nexthop := nh, nlri := .flowspec rules } = .bytes w) : Seq (attrItem cfg) w := by
+  unfold Evf.constructReachR at h
+  split at h
+  · rename_i hg
+    simp only [Evf.nlriGuard] at hg
+    simp only [Evf.constructReach] at h
+    have key : ∀ nb : Bytes, nb.length < 256 → ∀ nl, Flowspec.constructRules rules = some nl →
+        (if nl = [] then Evf.CR.none'
+         else Evf.attrHeader 14 (be16 Evf.afiInet ++ [u8 Evf.safiFlowspec, u8 nb.length] ++ nb ++ [0] ++ nl)) = .bytes w →
+        Seq (attrItem cfg) w := by
+      intro nb hnb nl hr h'
+      split at h'
+      · simp at h'
+      · refine seq_attrHeader cfg 14 _ w (Or.inl rfl) h' ?_
+        have hok : nlriOk 1 133 nl = true := by
+          simp [nlriOk, (seq_constructRules rules hg nl hr).all]
+        have := mpReachOk_reachValue 1 133 nb nl (by decide) (by decide) hnb hok
+        simpa [attrValueOk, Mp.reachValue, Evf.afiInet, Evf.safiFlowspec, be8] using this
+    cases hr : Flowspec.constructRules rules with
+    | none => cases nh <;> simp [hr] at h <;> (split at h <;> simp at h)
+    | some nl =>
+      cases nh with
+      | none =>
+        simp only [hr] at h
+        exact key [] (by simp) nl hr (by simpa using h)
+      | some a =>
+        simp only [hr] at h
+        cases hp : ipPacked a with
+        | none => simp [hp] at h
+        | some nb =>
+          simp only [hp] at h
+          have hnb : nb.length < 256 := by
+            have := ipPacked_length a nb hp; split at this <;> omega
+          exact key nb hnb nl hr (by simpa using h)
+  · simp at h
+
+/-- MP_UNREACH_NLRI for (1, 133) -/
+theorem C08b_flowspec_unreach (cfg : Cfg) (rules : List Flowspec.Rule) (w : Bytes)
+    (h : Evf.constructUnreachR (.flowspec rules) = .bytes w) : Seq (attrItem cfg) w := by
+  unfold Evf.constructUnreachR at h
+  split at h
+  · rename_i hg
+    simp only [Evf.nlriGuard] at hg
+    simp only [Evf.constructUnreach] at h
+    split at h
+    · simp at h
+    · cases hr : Flowspec.constructRules rules with
+      | none => simp [hr] at h
+      | some nl =>
+        simp only [hr] at h
+        refine seq_attrHeader cfg 15 _ w (Or.inr rfl) h ?_
+        have hok : nlriOk 1 133 nl = true := by
+          simp [nlriOk, (seq_constructRules rules hg nl hr).all]
+        have := mpUnreachOk_unreachValue 1 133 nl (by decide) (by decide) hok
+        simpa [attrValueOk, Mp.unreachValue, Evf.afiInet, Evf.safiFlowspec, be8] using this
+  · simp at h
+
 /-- non-vacuity: one route of every type in one MP_REACH_NLRI -/
 theorem exists_of_bytes {P : Bytes → Prop} {o : Evf.CR} (hs : (match o with | .bytes _ => true | _ => false) = true)
     (h : ∀ w, o = .bytes w → P w) : ∃ w, o = .bytes w ∧ P w := by
@@ -98,8 +172,25 @@ example : ∃ w, Evf.constructReachR
     all (attrItem {}) w = true :=
   exists_of_bytes (by decide) (fun w h => (C08b_evpn_reach {} _ _ w h).all)
 
+/-- non-vacuity for flow specifications (the constructor's output for this rule is known from C07b's
+    `constructRules_ok`): '&' and '|' items, 1-, 2- and 8-octet values, a prefix of length 0 -/
+example : ∃ b, Flowspec.constructRulesR ([[(1, .pfx 0 0), (2, .pfx 167772160 8),
+      (5, .expr [[(Op.ge, 80), (Op.le, 90)], [(Op.eq, 65536)]]),
+      (10, .expr [[(Op.lt, 300)], [(Op.gt, 4294967295)]])]].map SRule.toRule) = some b ∧ all (flowItem false) b = true := by
+  have hc := constructRules_ok [[(1, .pfx 0 0), (2, .pfx 167772160 8),
+      (5, .expr [[(Op.ge, 80), (Op.le, 90)], [(Op.eq, 65536)]]),
+      (10, .expr [[(Op.lt, 300)], [(Op.gt, 4294967295)]])]] (by decide)
+  have hg : ([[(1, SComp.pfx 0 0), (2, .pfx 167772160 8),
+      (5, .expr [[(Op.ge, 80), (Op.le, 90)], [(Op.eq, 65536)]]),
+      (10, .expr [[(Op.lt, 300)], [(Op.gt, 4294967295)]])]].map SRule.toRule).all Flowspec.ruleGuard = true := by decide
+  refine ⟨_, ?_, C08b_flowspec_rules _ _ (by unfold Flowspec.constructRulesR; rw [if_pos hg]; exact hc)⟩
+  unfold Flowspec.constructRulesR; rw [if_pos hg]; exact hc
+
 end Yabgp
 
 #print axioms Yabgp.C08b_evpn_routes
 #print axioms Yabgp.C08b_evpn_reach
 #print axioms Yabgp.C08b_evpn_unreach
+#print axioms Yabgp.C08b_flowspec_rules
+#print axioms Yabgp.C08b_flowspec_reach
+#print axioms Yabgp.C08b_flowspec_unreach
